@@ -10,6 +10,12 @@ import runner
 from registry import REGISTRY
 
 URIS = ["file:///a.num", "file:///b.num"]
+# a URI is an opaque key: two different strings are two documents, however alike they look
+URI_PAIRS = [("file:///a.num", "file:///b.num"), ("untitled:Untitled-1", "untitled:Untitled-2"),
+             ("file:///w/main.num", "git:/w/main.num?ref=HEAD"), ("file:///w/m.num", "file:///w/m.num#v2"),
+             ("file:///c%3A/x.num", "file:///c:/x.num"), ("file:///A.num", "file:///a.num"),
+             ("file:///w/a%20b.num", "file:///w/a b.num"), ("file:///w/x.num", "file:///w/x.num/"),
+             ("file://host/w/x.num", "file:///w/x.num"), ("inmemory://model/1", "inmemory://model/2")]
 
 BUILTIN_SIG = {
     "set_tx_meta": "`set_tx_meta(string, any)`\n\nset transaction metadata",
@@ -81,11 +87,12 @@ def histories_check(chk, fails, stats):
         histories.append([rng.choice(alphabet[:12]) if rng.random() < 0.35 else rng.choice(alphabet) for _ in range(rng.randrange(4, 25))])
     base_texts = texts[:3] if True else texts
     jobs, plans = [], []
-    for h in histories:
+    for hi, h in enumerate(histories):
         reqs, plan = [], []
         latest = {}
+        pair = URI_PAIRS[hi % len(URI_PAIRS)]
         for op in h:
-            uri = URIS[op[1]]
+            uri = pair[op[1]]
             if op[0] in ("open", "change"):
                 t = rng.choice(texts) if len(h) > L else base_texts[op[2]]
                 latest[uri] = t
